@@ -28,8 +28,13 @@ func deepCopySchemaDefinition(def *SchemaDefinition) *SchemaDefinition {
 				copy := *t
 				newNamedTypes[t.Name] = &copy
 			case *ScalarType:
-				copy := *t
-				newNamedTypes[t.Name] = &copy
+				if BuiltInTypes[t.Name] == t {
+					// Built-in types are singletons. They're never copied.
+					newNamedTypes[t.Name] = t
+				} else {
+					copy := *t
+					newNamedTypes[t.Name] = &copy
+				}
 			default:
 				panic(fmt.Errorf("unknown named type type: %T", t))
 			}
@@ -39,7 +44,10 @@ func deepCopySchemaDefinition(def *SchemaDefinition) *SchemaDefinition {
 	})
 
 	// Now update all of those shallow copies to point to each other.
-	for _, t := range newNamedTypes {
+	for name, t := range newNamedTypes {
+		if builtin, ok := BuiltInTypes[name]; ok && t == NamedType(builtin) {
+			continue
+		}
 		fixNamedTypePointers(t, newNamedTypes)
 	}
 
